@@ -51,15 +51,22 @@ WorldCands ==
     \cup {[Base EXCEPT !.op = "asort", !.a = a] : a \in {x \in HeldSet : w.n[x].kind = "a"}}
     \* the client parses the text the serializer gives for a tree it holds (flags 0 and PRETTY|SPACED)
     \cup ParseCands
+PPaths == {<<[t |-> "k", v |-> 1]>>, <<[t |-> "i", v |-> 0]>>, <<[t |-> "-", v |-> 0]>>, <<[t |-> "k", v |-> 1], [t |-> "i", v |-> 0]>>}
+ArrOfInt == [t |-> "array", e |-> <<Int0>>]
+WPatchCands ==
+    {x \in {WPatchComplete(w, [op |-> "wpatch", a |-> a, b |-> 0, k |-> 0, i |-> 0, cnt |-> 0, kind |-> "l", val |-> v, pop |-> po, path |-> p, from |-> f,
+                                ret |-> 0, newids |-> <<>>, dead |-> <<>>, fired |-> <<>>], Ids) :
+                a \in HeldSet, po \in {"add", "replace", "copy"}, p \in PPaths, f \in {<<[t |-> "k", v |-> 1]>>, <<[t |-> "i", v |-> 0]>>},
+                v \in {StrA, ArrOfInt, [t |-> "null"]}} : x.ret # -99}
 Step(c) == IF c.op = "new" /\ c.kind = "l"
            THEN LET r == WorldStep(w, Outcome(c)) IN IF r.ok THEN WorldStep(r.w, [op |-> "wleaf", a |-> c.a, val |-> c.val, ret |-> 1]) ELSE r
-           ELSE IF c.op \in {"wset", "asort", "parse"} THEN WorldStep(w, c)
+           ELSE IF c.op \in {"wset", "asort", "parse", "wpatch"} THEN WorldStep(w, c)
            ELSE LET pre == R!Apply(w, c) IN IF pre.ok THEN WorldStep(w, Outcome(c)) ELSE No(w)
 Init == w = [n |-> <<>>, leaf |-> <<>>] /\ last = Base
-Next == \E c \in {x \in StructCands \cup WorldCands : x.op \in Ops} :
+Next == \E c \in {x \in StructCands \cup WorldCands \cup (IF "wpatch" \in Ops THEN WPatchCands ELSE {}) : x.op \in Ops} :
             LET r == Step(c) IN
             /\ r.ok /\ w' = r.w
-            /\ last' = IF c.op \in {"wset", "asort", "parse"} THEN c ELSE Outcome(c)
+            /\ last' = IF c.op \in {"wset", "asort", "parse", "wpatch"} THEN c ELSE Outcome(c)
 Spec == Init /\ [][Next]_vars
 Bound == \A x \in R!Live(w) : w.n[x].held <= MaxHeld /\ Len(w.n[x].kids) <= MaxKids
 WView == w
@@ -87,4 +94,10 @@ SortPermutes == [][last'.op = "asort" => /\ \A x \in R!Live(w) \ {last'.a} : w'.
                                          /\ Len(w'.n[last'.a].kids) = Len(w.n[last'.a].kids)
                                          /\ \A y \in Ids \cup {0} : Cardinality({i \in 1..Len(w.n[last'.a].kids) : w.n[last'.a].kids[i] = y})
                                                                   = Cardinality({i \in 1..Len(w'.n[last'.a].kids) : w'.n[last'.a].kids[i] = y})]_vars
+\* C13: what a patch adds or copies is a value of its own - the next transitions (leaf sets, releases) are checked by SetIsLocal /
+\* PutKeepsValues from these states too; and the operation itself changes only values that contain the target location
+PatchIsLocal == [][last'.op = "wpatch" =>
+                     /\ (last'.ret = -1 => w' = w)
+                     /\ \A x \in DOMAIN Vals(w) : (x \in DOMAIN Vals(w') /\ Vals(w')[x] # Vals(w)[x]) =>
+                            LET par == R!Walk(w, last'.a, FrontOf(last'.path)) IN par \in R!Reach(w, x)]_vars
 ====
